@@ -30,21 +30,25 @@ impl Arm for HistArm {
     }
     fn runs(&self, tier: Tier) -> u64 {
         match (self.id, tier) {
-            ("C01", Tier::Quick) => 1500,
-            ("C01", Tier::Thorough) => 40_000,
-            ("C02", Tier::Quick) => 500,
-            ("C02", Tier::Thorough) => 12_000,
-            ("C03", Tier::Quick) => 400,
+            ("C01", Tier::Quick) => 8000,
+            ("C01", Tier::Thorough) => 150_000,
+            ("C02", Tier::Quick) => 2000,
+            ("C02", Tier::Thorough) => 20_000,
+            ("C03", Tier::Quick) => 800,
             ("C03", Tier::Thorough) => 10_000,
-            ("C04", Tier::Quick) => 250,
-            ("C04", Tier::Thorough) => 5_000,
-            ("C20", Tier::Quick) => 300,
+            ("C04", Tier::Quick) => 2000,
+            ("C04", Tier::Thorough) => 8_000,
+            ("C20", Tier::Quick) => 800,
             ("C20", Tier::Thorough) => 6_000,
             _ => 100,
         }
     }
     fn gen(&self, rng: &mut Rng, tier: Tier, _index: u64) -> Value {
         let thorough = tier == Tier::Thorough;
+        if self.id == "C20" && rng.chance(1, 3) {
+            // concurrent variant: tombstoning tasks interleaved with a publish and with readers
+            return serde_json::json!({"concurrent": crate::props::c13::gen_with_tombstones(rng, tier)});
+        }
         let (prof, checks) = match self.id {
             "C01" => (
                 GenProfile { max_labels: 12, max_epochs: if thorough { 40 } else { 24 }, max_batch: 12, tombstones: false, restarts: true, clock: true },
@@ -71,9 +75,20 @@ impl Arm for HistArm {
     }
     fn run(&self, spec: &Value, chooser: &ChooserSpec, log: bool) -> RunReport {
         let id = self.id;
+        if let Some(c) = spec.get("concurrent") {
+            let mut rep = crate::props::c13::run_spec_value(c, chooser, log, "c20c_");
+            rep.probe("concurrent_variant_run");
+            if let Some(o) = rep.spec_override.take() {
+                rep.spec_override = Some(serde_json::json!({"concurrent": o}));
+            }
+            return rep;
+        }
         run_hist(spec, chooser, log, true, &move |c| owns(id, c))
     }
     fn shrink(&self, spec: &Value) -> Vec<Value> {
+        if let Some(c) = spec.get("concurrent") {
+            return crate::props::c13::C13.shrink(c).into_iter().map(|x| serde_json::json!({"concurrent": x})).collect();
+        }
         shrink_hist(spec)
     }
     fn rule(&self) -> String {
